@@ -295,6 +295,24 @@ def run_native_standins(vc, prop, report, code):
         status, out = run_replay(script, timeout=chk.get("timeout", 900))
         chk["status"] = status
         chk["output_tail"] = out.strip().splitlines()[-5:]
+        if status == "reproduced" and chk.get("known"):
+            # failures of the stand-in that are listed (open) known findings: every REPRODUCED line must match the pattern of a listed finding
+            import re
+            listed = {k["finding"]: k for k in load_known() if k.get("property") == prop and k.get("status", "open") == "open"}
+            lines = [ln for ln in out.splitlines() if ln.startswith("REPRODUCED")]
+            hit, other = {}, []
+            for ln in lines:
+                fids = [fid for fid, pat in chk["known"].items() if fid in listed and re.search(pat, ln)]
+                if fids:
+                    hit.setdefault(fids[0], []).append(ln)
+                else:
+                    other.append(ln)
+            if lines and not other:
+                for fid, lns in hit.items():
+                    report["known"].append(f"KNOWN-FINDING: property={prop} {fid}: {listed[fid].get('what', '')} "
+                                           f"[bounded stand-in '{chk['name']}' reproduces it: {len(lns)} lines]")
+                chk["status"] = "known-findings-only"
+                continue
         if status == "reproduced":
             meta = script.replace("_replay.py", ".json")
             with open(meta, "w") as f:
